@@ -11,7 +11,6 @@ BASE  := -std=c++20 -O2 -DNDEBUG -pthread -I$(ROOT)/mc -I$(B)/gen -I$(REPO)/incl
 
 CHECKS := $(notdir $(wildcard $(ROOT)/checks/C*))
 
-.SECONDARY:
 .PHONY: all version
 all: $(foreach c,$(CHECKS),$(B)/$(c)/run)
 
@@ -34,7 +33,7 @@ define CHECK_RULES
 $(B)/$(1)/main.o: $(ROOT)/mc/main.cpp $(ROOT)/mc/mc.hpp
 	@mkdir -p $$(dir $$@)
 	$(CXX) -std=c++20 -O2 -I$(ROOT)/mc -DMC_PID='"$(1)"' -c $$< -o $$@
-$(B)/$(1)/%.o: $(ROOT)/checks/$(1)/%.cpp $(B)/gen/smooth/version.hpp $(ROOT)/Makefile
+$(B)/$(1)/%.o: $(ROOT)/checks/$(1)/%.cpp $(B)/gen/smooth/version.hpp $(ROOT)/Makefile $$(wildcard $(ROOT)/checks/$(1)/flags.mk)
 	@mkdir -p $$(dir $$@)
 	$(CXX) $(BASE) $$(FLAGS_$(1)) -c $$< -o $$@
 $(B)/$(1)/run: $(B)/$(1)/main.o $(B)/mc.o $$(patsubst $(ROOT)/checks/$(1)/%.cpp,$(B)/$(1)/%.o,$$(wildcard $(ROOT)/checks/$(1)/*.cpp))
@@ -42,4 +41,9 @@ $(B)/$(1)/run: $(B)/$(1)/main.o $(B)/mc.o $$(patsubst $(ROOT)/checks/$(1)/%.cpp,
 endef
 $(foreach c,$(CHECKS),$(eval $(call CHECK_RULES,$(c))))
 
+# dependency files: only those of the requested check when bin/check passes CHECK=<ID> (parsing all of them costs seconds)
+ifdef CHECK
+-include $(wildcard $(B)/$(CHECK)/*.d)
+else
 -include $(wildcard $(B)/*/*.d)
+endif
